@@ -358,10 +358,137 @@ fn compositions(lines: &[String]) -> Vec<Vec<Vec<String>>> {
     out
 }
 
+// ------------------------------------------------------------------------------------------------
+// Engine B: the counting workers under the controlled scheduler (DESIGN 4.5)
+// ------------------------------------------------------------------------------------------------
+
+/// (files, max_size, max_sequences, use_characters, char_grams, workers, preemption bound)
+#[allow(clippy::type_complexity)]
+fn sched_units(quick: bool) -> Vec<(Vec<Vec<String>>, Option<usize>, Option<usize>, bool, u8, usize, usize)> {
+    let f = |files: &[&[&str]]| files.iter().map(|f| f.iter().map(|l| l.to_string()).collect::<Vec<String>>()).collect::<Vec<_>>();
+    // a bound of 99 preemptions is no bound at all for these short executions: every interleaving
+    let mut u = vec![
+        (f(&[&["a b", "b a-b", "a a"]]), Some(10), None, false, 1, 2, 99),
+        (f(&[&["ab", "b"], &["ab a"]]), Some(1), Some(2), false, 1, 2, 99),
+        (f(&[&["ab", "ba", "ab"]]), None, None, true, 3, 3, if quick { 2 } else { 99 }),
+    ];
+    if !quick {
+        u.push((f(&[&["a", "a"], &["a", "b"]]), Some(2), None, true, 1, 2, 99));
+        u.push((f(&[&["a b", "b a", "A a"]]), Some(10), Some(2), false, 1, 3, 3));
+        u.push((f(&[&["a", "a"]]), None, None, false, 1, 4, 3));
+    }
+    u
+}
+
+#[allow(clippy::too_many_arguments)]
+fn check_sched(run: &mut Run, ctx: &mut Ctx, files: &[Vec<String>], max_size: Option<usize>, max_sequences: Option<usize>, use_characters: bool, char_grams: u8, workers: usize, bound: usize, replay: Option<Vec<usize>>) {
+    use text_utils::verif::ThreadKind;
+    let paths: Vec<std::path::PathBuf> = (0..files.len()).map(|i| ctx.scratch.path(&format!("s{i}.txt"))).collect();
+    for (p, f) in paths.iter().zip(files) {
+        std::fs::write(p, f.iter().map(|l| format!("{l}\n")).collect::<String>()).expect("cannot write file");
+    }
+    let reference = reference_counts(files, max_sequences, use_characters, char_grams);
+    let unit_json = json!({"sched": true, "files": files, "max_size": opt_json(max_size), "max_sequences": opt_json(max_sequences), "use_characters": use_characters, "char_grams": char_grams, "workers": workers, "bound": bound});
+    let runp: *mut Run = run;
+    let make_body = || {
+        let paths = paths.clone();
+        move || -> Result<(Items, Vec<Finding>), String> {
+            let d = Dictionary::create(&paths, max_size, max_sequences, workers as u8, use_characters, char_grams, false).map_err(|e| format!("Dictionary::create error: {e}"))?;
+            Ok((items_of(&d), vec![]))
+        }
+    };
+    let mut results: std::collections::BTreeSet<Items> = Default::default();
+    let tie = tie_at_cut(&reference, max_size);
+    let mut check = |x: &tu_verif::sched::Exec<Result<(Items, Vec<Finding>), String>>, _p: &[usize]| -> bool {
+        let run = unsafe { &mut *runp };
+        run.evaluations += 1;
+        run.calls += 1;
+        run.compared += 1;
+        if x.preemptions() > 0 {
+            run.nontrivial += 1;
+        }
+        let case = || {
+            let mut c = unit_json.clone();
+            c["choices"] = json!(x.choices());
+            c["schedule"] = json!(x.schedule());
+            c
+        };
+        run.sample(|| case());
+        if let Some(h) = &x.halt {
+            let machinery = matches!(h, tu_verif::sched::Halt::Divergence(_));
+            run.violation(if machinery { "machinery-replay-divergence" } else { "counting-schedule-terminates" }, if machinery { "machinery" } else { "" }, case(), format!("{h:?}"));
+            return false;
+        }
+        match (&x.result, &x.body_panic) {
+            (_, Some(p)) => {
+                run.violation("no-panic", "", case(), format!("Dictionary::create panicked under this schedule: {p}"));
+                return false;
+            }
+            (Some(Ok((items, _))), _) => {
+                results.insert(items.clone());
+                // exact frequencies, top-k, size: judged on the items against the reference count
+                let kept: std::collections::BTreeMap<&String, usize> = items.iter().map(|(k, v)| (k, *v)).collect();
+                let expect_len = max_size.map(|m| m.min(reference.len())).unwrap_or(reference.len());
+                let mut why = vec![];
+                if items.len() != expect_len {
+                    why.push(format!("{} entries, expected {expect_len}", items.len()));
+                }
+                for (k, v) in &kept {
+                    if reference.get(*k) != Some(v) {
+                        why.push(format!("entry {k:?} has frequency {v}, reference {:?}", reference.get(*k)));
+                    }
+                }
+                let min_kept = kept.values().copied().min().unwrap_or(usize::MAX);
+                if let Some((k, v)) = reference.iter().find(|(k, v)| !kept.contains_key(k) && **v > min_kept) {
+                    why.push(format!("omitted entry {k:?} (frequency {v}) is more frequent than a kept one ({min_kept})"));
+                }
+                if !why.is_empty() {
+                    run.violation("schedule-independent-exact-counts", "", case(), format!("under this schedule of the counting workers: {}; dictionary {items:?}, reference {reference:?}", why.join("; ")));
+                }
+            }
+            (Some(Err(e)), _) => {
+                run.violation("create-succeeds", "", case(), e.clone());
+            }
+            (None, None) => {}
+        }
+        run.num_violations() < 4
+    };
+    if let Some(choices) = replay {
+        let x = tu_verif::countsched::exec(ThreadKind::DictCounter, workers, &choices, make_body());
+        tu_verif::guard::quiet_panics();
+        if x.choices() != choices {
+            run.violation("machinery-replay-divergence", "machinery", unit_json.clone(), format!("replayed {:?}", x.choices()));
+        }
+        check(&x, &choices);
+        return;
+    }
+    let stats = tu_verif::countsched::explore(ThreadKind::DictCounter, workers, bound, run.deadline(), make_body, &mut check);
+    tu_verif::guard::quiet_panics();
+    if results.len() > 1 && !tie {
+        run.violation("same-result-for-every-schedule", "", unit_json.clone(), format!("different schedules of the counting workers gave different dictionaries: {results:?}"));
+    }
+    run.count_n("scheduler:executions", stats.executions);
+    run.count_n("scheduler:transitions", stats.transitions);
+    if stats.out_of_time {
+        run.capped = Some(format!("time budget reached in scheduler unit {unit_json}"));
+    }
+    let mut per = run.extra.remove("scheduler_units").and_then(|v| v.as_array().cloned()).unwrap_or_default();
+    per.push(json!({"unit": unit_json, "executions": stats.executions, "max_depth": stats.max_depth, "distinct_dictionaries": results.len(), "completed": !stats.stopped_early}));
+    run.extra.insert("scheduler_units".into(), json!(per));
+}
+
 fn main() {
     let mut run = Run::from_env("C20");
     let mut ctx = Ctx { scratch: Scratch::new("c20"), queries: strings(&QUERY_ALPHA, QUERY_MAX_LEN), judged: HashSet::new() };
     if let Some(c) = run.replay_case() {
+        if c.get("sched").is_some() {
+            let opt = |x: &Value| x.as_u64().map(|n| n as usize);
+            let files: Vec<Vec<String>> = c["files"].as_array().unwrap().iter().map(|f| f.as_array().unwrap().iter().map(|l| l.as_str().unwrap().to_string()).collect()).collect();
+            let choices = c["choices"].as_array().map(|a| a.iter().map(|v| v.as_u64().unwrap() as usize).collect()).unwrap_or_default();
+            check_sched(&mut run, &mut ctx, &files, opt(&c["max_size"]), opt(&c["max_sequences"]), c["use_characters"].as_bool().unwrap(), c["char_grams"].as_u64().unwrap() as u8, c["workers"].as_u64().unwrap() as usize, c["bound"].as_u64().unwrap() as usize, Some(choices));
+            drop(ctx);
+            run.finish();
+        }
         check_case(&mut run, &mut ctx, &Case::from_json(&c));
         drop(ctx);
         run.finish();
@@ -410,8 +537,14 @@ fn main() {
         }
     };
     let units = sets.len() * per_set;
+    let sus = sched_units(run.quick());
     if let Some(n) = run.describe_unit() {
         let n = n as usize;
+        if n >= units && n < units + sus.len() {
+            let u = &sus[n - units];
+            println!("{}", json!({"scheduler_unit": {"files": u.0, "max_size": opt_json(u.1), "max_sequences": opt_json(u.2), "use_characters": u.3, "char_grams": u.4, "workers": u.5, "bound": u.6}}));
+            return;
+        }
         if n < units {
             let cs = cases_of(n);
             if cs.len() == 1 {
@@ -448,6 +581,15 @@ fn main() {
     run.assumptions.push("the crate's public clean, normalize(NFKC) and split_words define 'cleaned, normalised word parts' (they are C11's and nobody's subject here, not C20's)".into());
     run.assumptions.push("character n-grams: the grapheme clusters of every whitespace-separated word, for n = 3 padded with <bow> and <eow>, joined by one space, counted when the middle symbol is a letter or punctuation (true for every symbol of the alphabet; asserted)".into());
     run.assumptions.push("which of several equally frequent entries survive the max_size cut is not determined by the statement: every choice is accepted, and results may differ between thread counts only in that choice".into());
+    run.bounds.insert("scheduler_units".into(), json!(sus.iter().map(|u| json!({"files": u.0, "max_size": opt_json(u.1), "max_sequences": opt_json(u.2), "use_characters": u.3, "char_grams": u.4, "workers": u.5, "preemption_bound": u.6})).collect::<Vec<_>>()));
+    run.assumptions.push("scheduler part: only the counting workers are controlled, the reducer (calling thread) runs freely and always receives, so the order of messages it sees is the controlled order of sends; sequentially consistent exploration of the instrumented primitives".into());
+    // Engine B first: every schedule of the counting workers up to the preemption bound
+    for (j, u) in sus.iter().enumerate() {
+        if !run.unit((units + j) as u64) {
+            continue;
+        }
+        check_sched(&mut run, &mut ctx, &u.0, u.1, u.2, u.3, u.4, u.5, u.6, None);
+    }
     for unit in 0..units {
         if !run.unit(unit as u64) {
             continue;
